@@ -143,6 +143,13 @@ class Gen:
                                 ("fn:0", 1), ("range", 1)])
 
     def expr(self, kind, depth=None):
+        if getattr(self, "safe_only", False):
+            # a context in which nothing may raise: literals and plain variable reads only
+            v = self.pick_var(kind) if kind in ("num", "str", "bool", "vec", "tuple") else None
+            if v is not None and self.r.chance(50):
+                return v.name
+            return {"num": self.r.choice(NUMS), "str": self.r.choice(STRS), "bool": self.r.choice(["true", "false"]),
+                    "vec": "[1, \"s\"]", "tuple": "(1, 2)", "nil": "nil"}.get(kind, "nil")
         if depth is None:
             depth = self.p.expr_depth
         if self.p.illtyped and self.r.chance(self.p.illtyped):
@@ -217,8 +224,9 @@ class Gen:
         if c < 70:
             return "String.from(%s)" % self.expr(r.choice(["num", "bool", "nil", "str", "vec"]), depth - 1)
         if c < 80:
-            s = r.choice(['"abcdef"', '"héllo"', '"a€b😀c"'])
-            return "%s[%s]" % (s, r.choice(["0", "1", "-1", "0..2", "0..0", "1..3"]))
+            return r.choice(['"abcdef"[%s]' % r.choice(["0", "1", "-1", "0..2", "0..0", "1..3", "-2..-1", "2..6"]),
+                             '"héllo"[%s]' % r.choice(["0", "0..1", "1..3", "3..6", "-1"]),
+                             '"a€b😀c"[%s]' % r.choice(["0", "1..4", "4", "5..9", "0..5", "-1"])])
         if c < 88:
             return "%s.replace(%s, %s)" % (self.paren(self.expr("str", depth - 1)), r.choice(['"a"', '"b"', '"l"']), r.choice(['"X"', '""', '"é"']))
         return self.probe(r.choice(STRS))
@@ -295,6 +303,8 @@ class Gen:
         return ("|%s| " % ", ".join(params) if n else "|| ") + body
 
     def pick_callable(self):
+        if getattr(self, "no_calls", False):
+            return None
         vs = self.visible(lambda v: v.kind.startswith("fn:"))
         return self.r.choice(vs) if vs else None
 
@@ -310,8 +320,12 @@ class Gen:
         self.in_try.append(0)
         self.in_finally.append(0)
         self.fn_kind.append(kind)
+        if not hasattr(self, "try_ctx"):
+            self.try_ctx = [[]]
+        self.try_ctx.append([])
 
     def pop_fn(self):
+        self.try_ctx.pop()
         self.fdepth -= 1
         self.scopes.pop()
         self.loop.pop()
@@ -334,25 +348,76 @@ class Gen:
         if depth <= 0 or self.budget <= 0:
             for k in ("if_", "while_", "for_", "block", "fn", "try_", "cls", "fiber"):
                 w[k] = 0
-        if self.loop[-1] == 0 or self.in_try[-1] > 0 or self.in_finally[-1] > 0:
+        av = self.p.avoid
+        tstack = getattr(self, "try_ctx", [[]])[-1]
+        in_try = bool(tstack)
+        in_fin = any(e["part"] == "finally" for e in tstack)
+        if self.loop[-1] == 0:
             w["brk"] = 0
             w["cont"] = 0
-        if self.fdepth == 0 or self.in_finally[-1] > 0 or (self.in_try[-1] > 0 and "exc.return_in_try" in self.p.avoid):
+        if in_try and "exc.break_in_try" in av and not self.loop_started_inside_try():
+            w["brk"] = 0
+            w["cont"] = 0
+        if self.fdepth == 0:
             w["ret"] = 0
-        if self.in_finally[-1] > 0:
-            w["throw"] = 0
-            w["try_"] = 0
-            w["var"] = 0 if "exc.var_in_finally" in self.p.avoid else w["var"]
-            w["fn"] = 0
-            w["cls"] = 0
-            w["for_"] = 0 if "exc.var_in_finally" in self.p.avoid else w["for_"]
-            w["block"] = 0 if "exc.var_in_finally" in self.p.avoid else w["block"]
-            w["if_"] = w["if_"]
-            w["while_"] = w["while_"]
+        elif in_try:
+            top = tstack[-1]
+            if in_fin and "exc.return_in_finally" in av:
+                w["ret"] = 0
+            elif len(tstack) > 1 and "exc.nested_try_return" in av:
+                w["ret"] = 0
+            elif not top["has_finally"] and "exc.return_in_try_no_finally" in av:
+                w["ret"] = 0
+            elif top["has_finally"] and "exc.return_in_try_with_finally" in av:
+                w["ret"] = 0
+            elif top["part"] == "catch" and "exc.return_in_catch" in av:
+                w["ret"] = 0
+        in_catch_fin = any(e["part"] == "catch" and e["has_finally"] for e in tstack)
+        self.no_calls = False
+        if (in_fin and "exc.throw_in_finally" in av) or (in_catch_fin and "exc.throw_in_catch_with_finally" in av):
+            # nothing in here may raise: the pending finally / the rest of the finally would be skipped
+            for k in ("throw", "call", "try_", "fiber", "chain", "setitem", "strop", "map_", "itchain", "field", "cls", "for_",
+                      "opassign", "fn", "lam"):
+                w[k] = 0
+            self.no_calls = True
+        self.safe_only = self.no_calls
+        if in_fin:
+            if "exc.throw_in_finally" in av:
+                w["throw"] = 0
+            if "exc.var_in_finally" in av:
+                for k in ("var", "fn", "cls", "for_", "block", "lam", "while_", "if_", "fiber", "map_", "itchain", "strop"):
+                    w[k] = 0
+            if "exc.call_in_finally" in av:
+                w["call"] = 0
         if self.fdepth > 0 and self.in_class_method:
             w["cls"] = 0
+        self.cur_w = w
         kind = self.r.weighted([(k, v) for k, v in sorted(w.items()) if v > 0])
         return getattr(self, "s_" + kind)(depth)
+
+    def fallback(self, depth):
+        if getattr(self, "cur_w", {}).get("var", 1) > 0:
+            return self.s_var(depth)
+        return self.s_print(depth)
+
+    def try_snapshot(self):
+        st = getattr(self, "try_ctx", [[]])[-1]
+        return tuple((id(e), e["part"]) for e in st)
+
+    def loop_started_inside_try(self):
+        """no try boundary between the innermost loop and here (so break/continue stay inside)"""
+        marks = getattr(self, "loop_marks", [])
+        return bool(marks) and marks[-1] == self.try_snapshot()
+
+    def enter_loop(self):
+        if not hasattr(self, "loop_marks"):
+            self.loop_marks = []
+        self.loop_marks.append(self.try_snapshot())
+        self.loop[-1] += 1
+
+    def leave_loop(self):
+        self.loop_marks.pop()
+        self.loop[-1] -= 1
 
     def s_var(self, depth):
         kind = self.r.weighted([("num", 10), ("str", 6), ("bool", 3), ("vec", 4), ("tuple", 2), ("nil", 1)])
@@ -364,7 +429,7 @@ class Gen:
     def s_assign(self, depth):
         vs = self.visible(lambda v: v.kind in ("num", "str", "bool", "vec", "tuple"), assignable=True)
         if not vs:
-            return self.s_var(depth)
+            return self.fallback(depth)
         v = self.r.choice(vs)
         return ["%s = %s;" % (v.name, self.guarded(v.kind))]
 
@@ -383,7 +448,7 @@ class Gen:
     def s_opassign(self, depth):
         vs = self.visible(lambda v: v.kind in ("num", "str"), assignable=True)
         if not vs:
-            return self.s_var(depth)
+            return self.fallback(depth)
         v = self.r.choice(vs)
         if v.kind == "str":
             return ["%s += %s;" % (v.name, self.guarded("str", 1))]
@@ -397,7 +462,7 @@ class Gen:
     def s_setitem(self, depth):
         v = self.pick_var("vec")
         if v is None:
-            return self.s_var(depth)
+            return self.fallback(depth)
         idx = self.r.choice(["0", "1", "-1", "2"])
         return ["if %s.len() > 2 { %s[%s] = %s; }" % (v.name, v.name, idx, self.expr(self.r.choice(["num", "str"]), 1))]
 
@@ -422,9 +487,9 @@ class Gen:
         n = self.r.range(0, 4)
         self.scopes.append([])
         self.declare(i, "num", const=True)
-        self.loop[-1] += 1
+        self.enter_loop()
         body = ["%s = %s + 1;" % (i, i)] + self.block(depth - 1)
-        self.loop[-1] -= 1
+        self.leave_loop()
         self.scopes.pop()
         return ["var %s = 0;" % i, "while %s < %d {" % (i, n)] + self.ind(body) + ["}"]
 
@@ -443,9 +508,9 @@ class Gen:
             it, kind = "[1, 2, 3].iter().map(|q| q * 2)", "num"
         self.scopes.append([])
         self.declare(x, kind, const=True)
-        self.loop[-1] += 1
+        self.enter_loop()
         body = self.block(depth - 1)
-        self.loop[-1] -= 1
+        self.leave_loop()
         self.scopes.pop()
         return ["for %s in %s {" % (x, it)] + self.ind(body) + ["}"]
 
